@@ -11,6 +11,9 @@ COMMON_TRUSTED = [
 
 # (file under coq/Gen, acra-vh arguments that print it): regenerated from /repo on every run
 GENERATORS = [
+    ("PoisonDetectorState.v", ["c15histstate"]),
+    ("KeyImportConsts.v", ["c07impconsts"]),
+    ("StagesConsts.v", ["c04stagesconsts"]),
     ("TypedRowsConsts.v", ["typedrows"]),
     ("Trans.v", ["transgo"]),
     ("WireDescConsts.v", ["wiredescconsts"]),
@@ -492,21 +495,31 @@ PROPS = {
                 "n_quick": 30,
                 "n_thorough": 120,
                 "model": True
+            },
+            {
+                "name": "c07imp",
+                "run_vo": "Model/RunKeyImport.vo",
+                "n_quick": 44,
+                "n_thorough": 110,
+                "model": True
             }
         ],
         "properties": [
             "C07",
-            "C07_open"
+            "C07_open",
+            "C07_import"
         ],
         "trusted": [
             "modelled, not verified: DER encoding of key rings (decoded by the harness with acra's own asn1 package; byte flips exercise the decoder), LRU eviction (cache modelled as unbounded map), history directories of v1 (C06), symlinks (paths are resolved lexically), Redis storage/backends",
             "in-memory filesystem.Storage (harness/vh/memfs.go) and the recording wrappers stand for the OS; the v2 directory backend runs on the real file system in a deep sandbox whose parents are scanned",
+            "c07imp / Properties/C07_import.v (file name -> owner context on the v1 import path): Model/KeyImport.v is a CHECKED byte-level model of isPrivate / getContextFromFilename / filepath.Base / the loop of KeyBackuper.Import, replayed on names built from a client-id universe that contains every key-kind suffix in the middle / at the end / doubled / at the start (+ .old, history directories, sub-directories, poison-record names) and on Export -> Import histories; isHistoricalFilename (time.Parse) is an observed input of the model, gob decoding of the bundle is done by the harness, DescribeKeyFile (the returned descriptions) is not modelled; the legacy GenerateServerKeys / GenerateTranslatorKeys are exercised by the oracle and as names of an imported bundle, not as operations of the model; Gen/KeyImportConsts.v (poison-record names, purposes per suffix) is read / probed from the compiled packages",
             "c07open (stored bytes changed while the key store is open): recording Backend and signature.Algorithm wrappers of the harness (the adversary acts inside Backend.Get); Model/RingStore.v sees a stored file as (payload bytes, signatures) or 'does not parse' and takes the ring content of a payload and the DER of each newly signed payload from tables produced with acra's own asn1 package (DER itself is not modelled); Put(.new)+Rename is one event; locks, key-data encryption and validity periods are outside that model; v1 public key files (stored in clear, unauthenticated by design) and replay of an OLDER validly signed ring file are outside the property's quantifier and not flagged"
         ],
         "assumptions": [
             "confinement theorems: the root / key directory is an absolute path (is_rooted)",
             "owner binding and tamper evidence are reductions: either the contexts/messages are equal or an explicit AEAD / MAC forgery witness exists",
-            "known finding v1-purpose-not-bound: v1 binds the owner id but not the key purpose"
+            "known finding v1-purpose-not-bound: v1 binds the owner id but not the key purpose",
+            "C07_import: the inversion theorem covers the private key kinds with a suffix of their own (storage, storage_sym, hmac, server, translator) for every valid id; the legacy connector private key (file name = bare id) is refuted (C07_import_context_connector_refuted; known finding keyname-collision-legacy-connector of C02); histories with Import: the names of the imported bundle were built by the name builders for validated ids (wf_iop) and are current-key names (historical = false)"
         ]
     },
     "C06": {
@@ -601,7 +614,8 @@ PROPS = {
     "C15": {
         "properties": [
             "C15",
-            "C15_legacy"
+            "C15_legacy",
+            "C15_history"
         ],
         "domains": [
             {
@@ -617,15 +631,24 @@ PROPS = {
                 "n_quick": 10,
                 "n_thorough": 150,
                 "model": True
+            },
+            {
+                "name": "c15hist",
+                "run_vo": "Model/RunPoisonHistory.vo",
+                "n_quick": 16,
+                "n_thorough": 144,
+                "model": True
             }
         ],
         "trusted": [
+            "history part (C15_history, domain c15hist): Gen/PoisonDetectorState.v is a go/ast reading (`acra-vh c15histstate`) of the struct declarations and method bodies of PoisonRecordDetector, EnvelopeDetector, DecryptHandler, RegistryHandler, TranslatorService: field list, receiver kind, receiver fields a method assigns / takes the address of / hands to sync/atomic or to a mutating method (Store, Add, Swap, Lock, ...), package-level variables of the declaring file; state kept elsewhere (a package-level variable of another file, behind an interface such as the keystore or the callback storage, in the context) is not seen by that table - the harness oracle `prefix independence' (long-lived object vs fresh object on the same value at the same moment) is what covers it; the keystore is vh.MemKeystore mutated between values (ErrKeysNotFound per kind as the filesystem keystore answers it)",
             "legacy part (C15_legacy): the detector is the one postgresql.NewProxyFactory(...).New builds with a callback storage (hook export_verif_x11old.go: its callback ids, in order, are asserted on every scenario, also for the MySQL factory); modelled, not verified: PostgreSQL's handleDataRow around the column loop (the loop itself is Model/LegacyChain.v row_ev, replayed by C11's domain), the MySQL response handler, decoder/encoder subscribers for columns WITH a data type id (C19)",
             "modelled, not verified: what the callbacks themselves do (poison.StopCallback exits, ExecuteScriptCallback starts a script): a callback is the event `Callback` plus an optional error",
             "delivery = the return of OnColumn / of the translator operation (the wire encoding after it is C12/C13)"
         ],
         "assumptions": [
             "Correct C for the poison-record creation theorems; detection/no-False-alarm theorems hold for any C",
+            "history theorems: every value carries the poison keys the keystore holds when it is given (no relation between successive keystore states assumed); the callback storage is fixed before the first value (SetPoisonRecordCallbacks / NewTranslatorService / proxyFactory.New)",
             "no_False_alarm is stated on the decrypt function's results (no unforgeability assumed) and as a reduction to an explicit opening witness",
             "prefix in front of the record is quiet (C01) in the detection theorems",
             "raw (legacy) records: the column holds no container header (no_container: the container pass matches nothing - else known finding raw-poison-next-to-container), no AcraStruct tag occurrence starts in front of the record (AcraBlock form: nor inside it); AcraBlock form with arbitrary callbacks after the detector: 'callbacks ran or the column was aborted'"
@@ -672,7 +695,8 @@ PROPS = {
             "C04",
             "C04_mysql",
             "C04_portal",
-            "C04_resolution"
+            "C04_resolution",
+            "C04_stages"
         ],
         "domains": [
             {
@@ -702,6 +726,13 @@ PROPS = {
                 "n_quick": 8,
                 "n_thorough": 150,
                 "model": True
+            },
+            {
+                "name": "c04stages",
+                "run_vo": "Model/RunStages.vo",
+                "n_quick": 36,
+                "n_thorough": 420,
+                "model": True
             }
         ],
         "trusted": [
@@ -714,6 +745,7 @@ PROPS = {
             "portal domain (c04portal, harness/vh/pgportal.go): message-level scripted client and a portal-capable fake back end written from the PostgreSQL protocol documentation (statement runs at the first Execute, max_rows / PortalSuspended, skip-to-Sync after an error, portals dropped at Sync outside a transaction block, a simple Query ignored while skipping); the back end waits after every CommandComplete / PortalSuspended / EmptyQueryResponse / ErrorResponse / ReadyForQuery until the scripted client has received it and samples pendingQueryPackets (hook decryptor/postgresql/export_verif_portal.go VerifPendingEntries) before it answers an Execute: the head of that sample is replayed on Model/ProxyPortal.v; the client side of the proxy is never slowed down (pipelining is real); the row oracle compares what the client received with what the back end sent for the same Execute (terminator log of the back end)",
             "portal model: the theorems C04_portal_* are about the queue + an abstract in-order back end (Model/ProxyPortal.v Part 2); which column settings a queue entry selects (statement analysis of the text it carries) and the result-format handling stay covered by the row oracle only; RowDescription type OIDs in pipelined sessions are not checked (handleRowDescription uses the session's last parsed statement); typed (data_type: str) columns occur in this domain only as an indicator of the settings used for a row",
             "statement analysis (domain c04col, Properties/C04_resolution.v): the sqlparser front end (encryptor/mysql queryDataEncryptor.go + utils.go, encryptor/base query_data_item.go, config schema lookups, ColIdent/TableIdent spellings of sqlparser/ast.go) is modelled over the generic tree form of the REAL ASTs (reflection export harness/cmd/acra-vh/c05pat_tree.go; kinds/fields Gen/CensorKinds.v, SQLVal type numbers Gen/ColumnResolveConsts.v, witness trees Gen/ColumnResolveWitness.v: all regenerated every run) and replayed: OnQuery of the encrypting instance with a recording DataEncryptor (which SQLVal node, by tree path, with which setting; registered placeholder settings; nothing else in the AST changed), OnBind with recording BoundValues, the settings-only instance's GetQueryEncryptionSettings; no acra hook is used; trusted: the yacc parser itself, strings.ToLower = ASCII lower (generated identifiers are ASCII), the literal coder (Decode is assumed to succeed with a non-empty result on a non-empty literal: generated literals are well-formed; C04_mysql MyLit owns it), the mapping of tree paths by the harness's own reflection walk (same child numbering as the export); the SPEC (Model/ColumnResolveSpec.v) is additionally compared with the generator's own ground truth (it knows the table/column of every value and select item it writes) on every case; the PostgreSQL front end (encryptor/postgresql on pg_query trees) is NOT modelled: it stays covered by the end-to-end oracle of domain c04 only; the sqlparser front end is also exercised under the PostgreSQL dialect of sqlparser (quoted identifiers, $n placeholders), which is how encryptor/mysql's own unit tests use it, not a production path",
+            "stage selection (domain c04stages, Properties/C04_stages.v, Model/Stages.v): multi-table encryptor configs (2-4 tables; table kinds = any subset of {tokenized, searchable, masked} beside a plainly encrypted column, or a listed table with nothing encrypted; every sequence of 2 and of 3 kinds and the 4-table plans at factory level, a rotating selection of plans - one feature table at every position, every order of some table sets - through the wire) on the wire rigs WITH a tokenizer (harness/vh/pgrig_s67.go NewPgRigTok, harness/myrig/rig_s67.go NewTok: in-memory token storage wrapped with the SecureCell token encryptor like cmd/acra-server); the proxy that is inspected (harness/x11rig/s67.go OpenWith; existing hooks export_verif_s55.go / export_verif_x11old.go: write chain members, column subscribers) is built by the SAME factory object the wire sessions use; the harness maps Go types of chain members / subscribers to the model's stage numbers (unknown type = 0xff = disagreement); the model covers the config keys crypto_envelope, reencrypting_to_acrablocks, token_type (str / bytes), consistent_tokenization, searchable, masking (+ defaults section); data_type / default_data_value / response_on_fail keys and config validation (validSettings) are not modelled (only valid configs are generated); StFwd replays only WHETHER a fresh value was forwarded changed (some chain member accepts the setting) - the protected form itself is C01_chain's (composition theorems C04_stages_*_forwarded_protected) and the marker oracle's; PostgreSQL text-format hex parameters of masked / non-consistently tokenized bytes columns are the known finding pg-text-hex-parameter-of-masked-or-tokenized-column",
             "MySQL replay conventions: INSERT .. ON DUPLICATE KEY UPDATE on an existing key = abstract Update, on a fresh key = abstract Insert (its ON DUPLICATE values oracle-only); statements MySQL rejects (tuple length <> column count) = abstract Other; scenarios with NULL parameters or the known-finding shape are oracle-only"
         ],
         "assumptions": [
